@@ -56,7 +56,7 @@ pub fn run_child(spec: &Value, dir: &Path, budget_s: u64) -> Result<ChildResult,
 }
 
 #[derive(Debug, Clone)]
-enum Expect {
+pub enum Expect {
     /// must end in ExceedRecursiveLimit with at least this many Include wrappers (and nothing else inside)
     Limit { min_wrappers: usize },
     /// must succeed and yield exactly these code tokens (kept `define lines excluded)
@@ -65,13 +65,13 @@ enum Expect {
     Either(Vec<String>),
 }
 
-struct Shape {
-    name: String,
-    files: Vec<(String, String)>, // (relative path, text); files[0] is the top file
-    expect: Expect,
+pub struct Shape {
+    pub name: String,
+    pub files: Vec<(String, String)>, // (relative path, text); files[0] is the top file
+    pub expect: Expect,
 }
 
-fn macro_cycle(n: usize) -> Shape {
+pub fn macro_cycle(n: usize) -> Shape {
     let mut s = String::new();
     for i in 0..n {
         s.push_str(&format!("`define M{} x{} `M{} y{}\n", i, i, (i + 1) % n, i));
@@ -80,7 +80,7 @@ fn macro_cycle(n: usize) -> Shape {
     Shape { name: format!("macro cycle of length {}", n), files: vec![("top.sv".into(), s)], expect: Expect::Limit { min_wrappers: 0 } }
 }
 
-fn include_cycle(n: usize) -> Shape {
+pub fn include_cycle(n: usize) -> Shape {
     let mut files = vec![("top.sv".to_string(), "t_top\n`include \"f0.svh\"\nafter\n".to_string())];
     for i in 0..n {
         files.push((format!("f{}.svh", i), format!("t{}\n`include \"f{}.svh\"\n", i, (i + 1) % n)));
@@ -89,7 +89,7 @@ fn include_cycle(n: usize) -> Shape {
 }
 
 /// file k defines a macro that expands to an include of the next file and uses it
-fn mixed_cycle(n: usize) -> Shape {
+pub fn mixed_cycle(n: usize) -> Shape {
     let mut files = vec![("top.sv".to_string(), "`include \"g0.svh\"\n".to_string())];
     for i in 0..n {
         files.push((format!("g{}.svh", i), format!("`define INC{} `include \"g{}.svh\"\nu{}\n`INC{}\n", i, (i + 1) % n, i, i)));
@@ -98,7 +98,7 @@ fn mixed_cycle(n: usize) -> Shape {
 }
 
 /// `include `A where A's body is again `include `… (cycle made only of include-by-macro hops), plus variants
-fn include_macro_cycle(n: usize) -> Shape {
+pub fn include_macro_cycle(n: usize) -> Shape {
     let mut s = String::new();
     for i in 0..n {
         s.push_str(&format!("`define A{} `include `A{}\n", i, (i + 1) % n));
@@ -107,7 +107,7 @@ fn include_macro_cycle(n: usize) -> Shape {
     Shape { name: format!("`include `MACRO cycle of length {}", n), files: vec![("top.sv".into(), s)], expect: Expect::Limit { min_wrappers: 0 } }
 }
 
-fn macro_chain(d: usize) -> Shape {
+pub fn macro_chain(d: usize) -> Shape {
     let mut s = String::new();
     s.push_str("`define L0 leaf\n");
     for i in 1..d {
@@ -118,7 +118,7 @@ fn macro_chain(d: usize) -> Shape {
     Shape { name: format!("macro chain of depth {}", d), files: vec![("top.sv".into(), s)], expect: if d <= 64 { Expect::Tokens(toks) } else { Expect::Either(toks) } }
 }
 
-fn include_chain(d: usize) -> Shape {
+pub fn include_chain(d: usize) -> Shape {
     // top includes c0, c0 includes c1, …, c(d-1) holds the leaf: d include levels
     let mut files = vec![("top.sv".to_string(), "a\n`include \"c0.svh\"\nb\n".to_string())];
     let mut toks = vec!["a".to_string()];
@@ -135,7 +135,7 @@ fn include_chain(d: usize) -> Shape {
 }
 
 /// include chain of depth b whose innermost file uses a macro chain of depth a
-fn mixed_chain(a: usize, b: usize) -> Shape {
+pub fn mixed_chain(a: usize, b: usize) -> Shape {
     let mut top = String::from("`define L0 leaf\n");
     for i in 1..a {
         top.push_str(&format!("`define L{} `L{}\n", i, i - 1));
@@ -158,7 +158,7 @@ fn mixed_chain(a: usize, b: usize) -> Shape {
 }
 
 /// macro chain whose every level goes through an include: Lk is defined in file k as `include of file k-1 … (depth d of each kind)
-fn interleaved_chain(d: usize) -> Shape {
+pub fn interleaved_chain(d: usize) -> Shape {
     // file i defines nothing new; it uses macro INC(i+1) which expands to `include "h(i+1).svh"
     let mut top = String::new();
     for i in 0..d {
